@@ -341,7 +341,7 @@ func withoutRestarts(ops []Op) []Op {
 				seenStart = true
 				out = append(out, o)
 			} else if !closed {
-				out = append(out, Op{"sample", 0, "+0"})
+				out = append(out, Op{Kind: "sample", DtMs: 0, Move: "+0"})
 			}
 		case "close":
 			if seenStart {
@@ -480,7 +480,7 @@ func (s *lifeSearcher) dfs(hist []Op, remaining int) {
 
 // tinyAlphabet has one letter per kind of event, for long histories.
 func tinyAlphabet() []Op {
-	return []Op{{Kind: "start"}, {Kind: "close"}, {"wait", 5000, "+1e6"}, {"sample", 0, "+1"}, {"sample", 10000, "+1e6"}, {"sample", 30000, "+0"}, {"sample", 300000, "-1"}}
+	return []Op{{Kind: "start"}, {Kind: "close"}, {Kind: "wait", DtMs: 5000, Move: "+1e6"}, {Kind: "sample", DtMs: 0, Move: "+1"}, {Kind: "sample", DtMs: 10000, Move: "+1e6"}, {Kind: "sample", DtMs: 30000, Move: "+0"}, {Kind: "sample", DtMs: 300000, Move: "-1"}}
 }
 
 func lifeAlphabet(full bool) []Op {
@@ -497,12 +497,12 @@ func lifeAlphabet(full bool) []Op {
 	a := []Op{{Kind: "start"}, {Kind: "close"}}
 	for _, d := range waitDts {
 		for _, m := range waitMoves {
-			a = append(a, Op{"wait", d, m})
+			a = append(a, Op{Kind: "wait", DtMs: d, Move: m})
 		}
 	}
 	for _, d := range sampleDts {
 		for _, m := range sampleMoves {
-			a = append(a, Op{"sample", d, m})
+			a = append(a, Op{Kind: "sample", DtMs: d, Move: m})
 		}
 	}
 	return a
